@@ -180,8 +180,12 @@ class Histories(Part):
     def api_history(rng, case, db):
         from artap.datastore import SqliteDataStore
         from artap.individual import Individual
-        problem = absx.make_problem(2, bounds=[[-1.0, 1.0], [0.0, 1e6]], evaluate=lambda i: [0.0],
-                                    costs=[{'name': 'f_1', 'criteria': 'minimize'}, {'name': 'f_2', 'criteria': 'maximize'}])
+        # definitions in a declaration order that is NOT the lexicographic order of the names (and more than ten parameters)
+        npar = rng.choice([2, 3, 12])
+        problem = absx.make_problem(npar, bounds=[[-1.0, 1.0], [0.0, 1e6]] + [[0.0, 1.0]] * (npar - 2), evaluate=lambda i: [0.0],
+                                    costs=[{'name': 'mass', 'criteria': 'minimize'}, {'name': 'efficiency', 'criteria': 'maximize'}])
+        for i, p in enumerate(problem.parameters):
+            p['name'] = ['width', 'angle', 'height'][i] if npar == 3 else 'x_%d' % (i + 1)
         problem.parameters[0]['precision'] = 1e-3
         problem.name = "store test ü"
         store = SqliteDataStore(problem, database_name=db)
@@ -193,7 +197,7 @@ class Histories(Part):
         for op in case["hist"]:
             a, d = op["a"], op["d"]
             if a == "create":
-                ind = Individual(list(shared) if rng.random() < 0.5 else [rng.choice(NASTY), rng.choice(NASTY)])
+                ind = Individual((list(shared) if rng.random() < 0.5 else [rng.choice(NASTY), rng.choice(NASTY)]) + [0.5] * (npar - 2))
                 inds[d] = ind
                 problem.individuals.append(ind)
                 trace.append({"ev": "mutate", "id": int(ind.id), "fp": fp.of(ind)})
@@ -227,6 +231,7 @@ class Histories(Part):
             x = ind.vector
             return [x[0] ** 2 + x[1], (1 + x[1]) / (0.5 + abs(x[0]))][:len(costs)]
         problem = absx.make_problem(2, bounds=[[-1.0, 1.0], [0.0, 2.0]], costs=costs, evaluate=f)
+        problem.parameters[0]['name'], problem.parameters[1]['name'] = 'width', 'angle'
         for p in problem.parameters:
             p['initial_value'] = 0.3
         store = SqliteDataStore(problem, database_name=db)
